@@ -77,6 +77,7 @@ pub fn generated_loads(repo: &str, verif_seed: u64, family: &str, k: u64) -> boo
         "jbig_cycle" => Family::JbigCycle,
         "long_parents" => Family::LongParents,
         "icc_cycle" => Family::IccCycle,
+        "self_kid" => Family::SelfKid,
         _ => Family::Rich,
     };
     let mut pool = Pool::new(repo, verif_seed);
